@@ -125,9 +125,14 @@ def delete_events(p):
     """-> (list of (kind, location z3, cond pcs, phase_index)), in trace order"""
     out = []
     phase = 0
+    last_group = None
     for e in p.st.events:
         if e.kind == 'forall':
-            phase += 1
+            # calls handed to ONE asyncio.gather run concurrently: they share a phase
+            g = e.data.get('group')
+            if g is None or g != last_group:
+                phase += 1
+            last_group = g
             for sp in e.data['paths']:
                 for se in sp['events']:
                     if se.kind in ('delete', 'delete_cached'):
@@ -199,7 +204,7 @@ def make_delete_post(prop):
                 # completeness (C08): the quantified deletions range over exactly the computed sets
                 if '_delete_chunk' in fa and '_delete_snapshot' in fa:
                     ch, sn = fa['_delete_chunk'], fa['_delete_snapshot']
-                    succ = lambda f, lab: [sp for sp in f.data['paths'] if any(se.kind == 'delete' for se in sp['events'])]
+                    succ = lambda f, lab: [sp for sp in f.data['paths'] if any(se.kind == 'delete' for se in sp['events']) and not sp['raised']]
                     # every element of the set is deleted on every successful sub-path
                     res.oblige(p, f'{prop}.delete.every_subpath_deletes[{sig}]',
                                z3.BoolVal(len(succ(ch, 0)) == len(ch.data['paths']) and len(succ(sn, 0)) == len(sn.data['paths'])))
@@ -364,7 +369,7 @@ def make_clean_post(prop, me_holder):
                 if fa:
                     f = fa[0]
                     res.oblige(p, f'{prop}.clean.every_subpath_deletes[{sig}]', z3.BoolVal(
-                        all(any(se.kind == 'delete' for se in sp['events']) for sp in f.data['paths']) and len(fa) == 1))
+                        all(any(se.kind == 'delete' for se in sp['events']) and not sp['raised'] for sp in f.data['paths']) and len(fa) == 1))
                     # exactness (C08): the set handed to the deleter is exactly the selected one
                     res.oblige(p, f'{prop}.clean.exact[{sig}]', z3.ForAll([l], z3.Select(f.data['member'], l) == sel(l)))
                 else:
